@@ -685,9 +685,22 @@ def gen_chain(ctx, rng, cuqi, state, impl, tk, md, epsc, warm, cases, inners, n_
     eps = rng.choice(EPS_CLASSES[epsc])
     x0 = gen_start(rng, spec)
     scripts = []
-    for _ in range(n_tr):
+    for t_ in range(n_tr):
         e, us = gen_script(rng, md)
-        scripts.append((gen_z(rng, d), e, us))
+        zz = gen_z(rng, d)
+        if t_ == 0 and md >= 1 and not warm and rng.random() < 0.5:
+            # a slice variable that cuts the orbit: some leaves inside, some outside the slice without being divergent
+            # (unequal n', n'' in the merges, rejected top-level moves) -- energy errors are small for small steps, so
+            # a draw from a fixed grid almost never does this
+            span = 2 ** (md + 1) - 1
+            with np.errstate(all="ignore"):
+                st_, f_ = orbit(spec, eps, x0, zz, -span, span)
+                hh = {i_: float(f_(s_[0])) - 0.5 * float(np.dot(s_[1], s_[1])) for i_, s_ in st_.items()}
+            dd = sorted(set(hh[0] - h for h in hh.values() if np.isfinite(h) and 1e-6 < hh[0] - h < 500))
+            if dd:
+                k_ = rng.randrange(len(dd))
+                e = float((dd[k_] + (dd[k_ + 1] if k_ + 1 < len(dd) else 1.5 * dd[k_])) / 2)
+        scripts.append((zz, e, us))
     wseed = rng.randint(1, 10**6)
     chain_meta = {"impl": impl, "target": spec, "eps": eps, "max_depth": md, "x0": x0, "warm": warm, "warm_seed": wseed,
                   "scripts": [[z, e, us[:40]] for (z, e, us) in scripts]}
@@ -773,7 +786,7 @@ def run(ctx):
                 if tk == "quartic" and md > 1:
                     continue       # exact rationals of a cubic map grow as 3^leaves (7 leaves: minutes of gcd): deeper trees are covered by the two-piece normal
                 for epsc in EPS_CLASSES:
-                    for _ in range(reps):
+                    for _ in range(reps if (ctx.thorough or md < 2) else 4):      # deep trees: history-dependent decisions need volume
                         gen_chain(ctx, rng, cuqi, state, impl, tk, md, epsc, 0, cases, inners)
     # after warm-up (adapted, non-dyadic step size and start)
     # (an adapted step size is a 53-bit number: exact rationals then grow by ~160 bits per leaf, so trees stay shallow here)
@@ -793,7 +806,7 @@ def run(ctx):
     for it in range(ctx.n(10, 60)):
         tk = TARGET_KINDS[it % len(TARGET_KINDS)]
         md = [0, 1, 1][it % 3]
-        deep = ctx.thorough and it % 12 == 5          # depth 2: up to 15 sources x 2^10 scripted runs, a minute each
+        deep = (ctx.thorough and it % 12 == 5) or (not ctx.thorough and it == 6)   # depth 2: up to 15 sources x 2^10 scripted runs
         if deep:
             md = 2
         spec = gen_spec(rng, tk, d=(1 if deep else rng.randint(1, 2)))
@@ -802,6 +815,18 @@ def run(ctx):
         eps = rng.choice([0.25, 0.5, 2.0, 0.125, 4.0])
         x0, z = gen_start(rng, spec), gen_z(rng, dim_of(spec))
         e, _ = gen_script(rng, md)
+        if deep or it % 2 == 1:
+            # slice variable cutting the orbit (partly in-slice sub-trees, rejected top-level moves)
+            if deep:
+                eps = rng.choice([0.25, 0.5])
+            span = 2 ** (md + 1) - 1
+            with np.errstate(all="ignore"):
+                st_, f_ = orbit(spec, eps, x0, z, -span, span)
+                hh = {i_: float(f_(s_[0])) - 0.5 * float(np.dot(s_[1], s_[1])) for i_, s_ in st_.items()}
+            dd = sorted(set(hh[0] - h for h in hh.values() if np.isfinite(h) and 1e-6 < hh[0] - h < 500))
+            if dd:
+                k_ = rng.randrange(len(dd))
+                e = float((dd[k_] + (dd[k_ + 1] if k_ + 1 < len(dd) else 1.5 * dd[k_])) / 2)
         for impl in ("exp", "leg"):
             meta = {"impl": impl, "target": spec, "eps": eps, "max_depth": md, "x0": x0, "z": z, "e": e, "orbit": True}
             if impl == "leg" and tk == "box:pinf" and not state["leg_guard"]:
